@@ -341,7 +341,8 @@ func c19Producers(r *Run, db *SiteDB) {
 			continue
 		}
 		uses := false
-		for _, s := range db.ByFunc[fi] {
+		// in the method itself or in a private helper it calls (direntFor)
+		for _, s := range append(append([]*Site{}, db.ByFunc[fi]...), db.Deep[fi]...) {
 			if s.Callee == "fsimpl/localfs.Local.info" {
 				uses = true
 			}
